@@ -59,6 +59,8 @@ def gen_expr(rng, depth, addressable):
                              gen_expr(rng, depth - 1, addressable))
     if k < 0.72:
         return 'n ' + gen_expr(rng, depth - 1, addressable)
+    if k < 0.735:
+        return 'm ' + gen_expr(rng, depth - 1, addressable)   # memory operand: not an expression function
     if k < 0.87:
         return '%s%d %s' % (rng.choice('su'), rng.choice([8, 16, 32]), gen_expr(rng, depth - 1, addressable))
     return '%s %s %d' % (rng.choice('<>]'), gen_expr(rng, depth - 1, addressable),
@@ -71,7 +73,7 @@ def gen_case(rng, nitems):
                ('Ox', 3)]
     kinds = rng.choices([k for k, _ in weights], [w for _, w in weights], k=nitems)
     want_l = 'L' in kinds
-    if want_l:
+    if want_l and rng.random() < 0.97:   # rarely: lrefs without a function holding the labels
         kinds.insert(rng.randrange(len(kinds) + 1), 'G')
     n = len(kinds)
     # names: data-like items are named with probability pn (a sequence-wide choice)
@@ -171,6 +173,10 @@ BOUNDARY = [
     'i : G ; L 1 0 - 0 ; L - 1 - 0 ; L - 2 - 8 ; L - 1 0 0 ; L - 2 0 0 ; L - 0 2 0 ; L - 2 1 fffffffffffffff9',
     'g : G ; L 1 0 - 0 ; L - 1 - 0 ; L - 2 - 8 ; L - 1 0 0 ; L - 2 0 0 ; L - 0 2 0 ; L - 2 1 fffffffffffffff9',
     'l : L 0 0 - 0 ; D - u8 1 ; L - 1 0 4 ; G ; L - 2 - 0 ; B - 3',
+    'i : F i64 m c10 ; D 1 u8 1 ; E - 0',
+    'i : F i64 c10 ; F i32 + c1 m a0 ; E 2 0 ; E - 1',
+    'g : D 0 u8 1 ; L - 0 - 0',
+    'i : F i64 m c10 ; E 1 0 ; L - 0 - 0',
 ]
 
 
@@ -309,8 +315,6 @@ def shrink(impl, model, c, env=None, strict=True):
             except ValueError:
                 return None
             out.append(' '.join(w))
-        if any(s.startswith('L') for s in out) and not any(s == 'G' for s in out):
-            return None
         return out
     changed = True
     while changed and len(items) > 1:
